@@ -45,6 +45,11 @@ P = {
  'C13': ("name_spellings: all escape-free spellings of a member name select the same node; number_spellings: int/float spellings compare alike under all operators; "
          "same_spec_same_nodes. String-level blank-space invariance by metamorphic correspondence (6 spellings per abstract query).", "5.13",
          "AST-level proof + metamorphic correspondence"),
+ 'C15': ("theorem C15: for ANY type with a Queryable structure and ANY faithful view into JSON (every trait accessor commutes with the view), the accessor-only "
+         "transcription of the evaluator (EvalG: selectors, descendants, unions, nested filters, comparisons, deep equality, all functions) returns position by "
+         "position the same paths/locations and the views of the values that the Json evaluator returns on the viewed document; instantiated at Json it shows "
+         "EvalG = Eval. Correspondence: the same cases through serde_json::Value and through a second Queryable type in the harness (Vec-backed members, separate "
+         "unsigned variant, lossy Debug, no reference override).", "5.15", "simulation proof over a trait-generic model + second-implementation differential run"),
  'C14': ("in/nin/any_of/none_of/subset_of equal the list-membership definitions for all arguments (w.r.t. the data type's ==); complement laws; non-array/missing -> false.", "5.14",
          "direct proof by simp on the model + correspondence"),
 }
